@@ -355,6 +355,18 @@ def run(ctx):
                     else:
                         if canon_l(vz.generate_lattice(pts.copy(), False, shift)) != base:
                             rep("generate_lattice(points, False, shift) with the flags by position differs from the call with shift_vertices= as a keyword")
+                        # the flag in the other spellings a caller has (an item of a boolean array, 0/1)
+                        for lab, fl in (("np.bool_", np.bool_(shift)), ("0/1 integer", int(shift)), ("item of a boolean array", np.array([shift, not shift])[0])):
+                            if canon_l(vz.generate_lattice(pts.copy(), shift_vertices=fl)) != base:
+                                rep(f"shift_vertices given as {lab} ({fl!r}) gives a different lattice from shift_vertices={shift}", flag=lab); break
+                        # single-precision seeds: the lattice is the tessellation of exactly those points (the same points widened to float64 give it to rounding)
+                        p32 = pts.astype(np.float32)
+                        l32, l64 = vz.generate_lattice(p32, shift_vertices=shift), vz.generate_lattice(p32.astype(np.float64), shift_vertices=shift)
+                        if (l32.n_vertices != l64.n_vertices or not np.array_equal(l32.edges.indices, l64.edges.indices) or not np.array_equal(l32.edges.crossing, l64.edges.crossing)
+                                or np.abs(l32.vertices.positions - l64.vertices.positions).max() > 1e-12):
+                            dev = np.abs(l32.vertices.positions - l64.vertices.positions).max() if l32.n_vertices == l64.n_vertices else float("nan")
+                            rep(f"float32 seeds give a lattice that differs (max position difference {dev:.2e}) from the lattice of the same points as float64", representation="float32")
+                        ctx.count("float32_point_sets")
             except Exception as ex:
                 rep(f"raised {type(ex).__name__}: {ex}")
             ctx.case((name,), nontrivial=True)
